@@ -15,6 +15,11 @@ themselves with that same candidate, so the volume contains them:
  B4  bounding_box (AABB): centre = mean of the bounds, extents = spread of the bounds; bounding_box_oriented inverts
      the to-origin transform it was given; hull vertices are rows of the input points.
 Convexity / watertightness of qhull output, minimality, and bounding_cylinder are not decided.
+
+The rules are relations over the hash-consed value graph of each function (sa/dag.py): "the rectangle, the offset and the
+angle are read at the same candidate" is "three metavariables bind the same node".  Names of locals, the number of
+intermediate steps and repeated subexpressions do not matter.  A value that is not of the expected shape is reported as
+NOT decided; only a recognised shape with a broken relation is a violation.
 """
 from __future__ import annotations
 
@@ -41,6 +46,50 @@ def _canon_defs(pv, f, name, stop=()):
     return out
 
 
+class _Rel:
+    """relations over the value graph of one function (sa/dag.py).  `piece` matches a loose template (None: the value is
+    not of that shape -> the relation is NOT decided, never a violation); `same` demands that two bindings are the same
+    node of the graph - a positive finding: the shape is there and the relation is broken."""
+
+    def __init__(self, run, rule, f, V):
+        self.run, self.rule, self.f, self.V = run, rule, f, V
+
+    def piece(self, what, templates, node, env=None):
+        for t in ([templates] if isinstance(templates, str) else templates):
+            e = self.V.match(t, node, env)
+            if e is not None:
+                return e
+        self.run.instance(self.rule, self.f.where, f"{what}: `{self.V.text(node, 2, 120)}` is not in a recognised form - NOT decided", True, nontrivial=False)
+        self.run.assume(f"{self.f.qualname}: {what} not decided (value not in a recognised form)")
+        return None
+
+    def same(self, what, env, pairs, broken, key):
+        if env is None:
+            return False
+        bad = [(a, b) for a, b in pairs if env.get(a) != env.get(b)]
+        ok = not bad
+        self.run.instance(self.rule, self.f.where, what, ok)
+        if not ok:
+            a, b = bad[0]
+            self.run.violation(self.rule, self.f.where, f"{self.f.qualname}: {broken} (`{self.V.text(env.get(a) or '?', 2, 70)}` vs `{self.V.text(env.get(b) or '?', 2, 70)}`)",
+                               key=key_of(f"C16-{self.rule}", key))
+        return ok
+
+    def demand(self, what, ok, broken, key):
+        self.run.instance(self.rule, self.f.where, what, ok)
+        if not ok:
+            self.run.violation(self.rule, self.f.where, f"{self.f.qualname}: {broken}", key=key_of(f"C16-{self.rule}", key))
+        return ok
+
+
+def _unphi(V, node, *templates):
+    """the alternatives of a PHI node (or the node itself)"""
+    n = V.dag.node(node) if isinstance(node, (ast.Name, str)) else node
+    if isinstance(n, ast.Call) and isinstance(n.func, ast.Name) and n.func.id == "PHI":
+        return list(n.args)
+    return [node]
+
+
 def check(run):
     ix = Index(run.repo)
     run.analysed.update(ix.stats())
@@ -48,43 +97,87 @@ def check(run):
     run.rule("B2", "oriented_bounds: translation = -(min + spread/2) of the points under the returned rotation; height = spread of the same projection; the axis re-ordering is a det +1 signed permutation for all six orders")
     run.rule("B3", "minimum_nsphere: returned radius is the maximum distance of the points to the returned centre, both un-scaled alike")
     run.rule("B4", "AABB box: centre = mean(bounds), extents = spread(bounds); the oriented box inverts the to-origin transform; hull vertices are rows of the input")
+    from ..dag import Values
 
     # ------------------------------------------------------------------ B1
     f2 = ix.func("trimesh.bounds:oriented_bounds_2D")
-
-    def relation(rule, f, what, env, pairs, broken_msg, key):
-        """env: binding from a loose template (None = anchors not found -> undecided); pairs: [(meta a, meta b)] that must bind alike"""
-        if env is None:
-            run.instance(rule, f.where, f"{what}: anchor statements not in a recognised form - NOT decided", True, nontrivial=False)
-            run.assume(f"{f.qualname}: {what} not decided (statement shapes not recognised)")
-            return
-        bad = [(a_, b_, env[a_], env[b_]) for a_, b_ in pairs if env[a_] != env[b_]]
-        ok = not bad
-        run.instance(rule, f.where, f"{what} ({', '.join(a_ + '=' + env[a_][:30] for a_, _ in pairs)})", ok)
-        if not ok:
-            a_, b_, x_, y_ = bad[0]
-            run.violation(rule, f.where, f"{f.qualname}: {broken_msg} (`{x_[:60]}` vs `{y_[:60]}`)", key=key_of(f"C16-{rule}", key))
-
-    env = find('''
-_v_b = np.column_stack((_e_x1.min(axis=1), _e_y1.min(axis=1), _e_x2.max(axis=1), _e_y2.max(axis=1)))
-''', f2.node)
-    relation("B1", f2, "the rectangle bounds take min and max of the same two projections", env, [("_e_x1", "_e_x2"), ("_e_y1", "_e_y2")],
-             "the lower and upper bounds of the rectangle are taken over different projections, so the rectangle need not contain the points", "bounds-pairs")
-    env = find('''
-_v_x = np.dot(_e_ev1, _e_h1.T)
-_v_y = np.dot(_e_pv, _e_h2.T)
-''', f2.node)
-    relation("B1", f2, "both projections are taken of the same hull points", env, [("_e_h1", "_e_h2")],
-             "the two projections are measured on different point sets", "hull-points")
-    env = find('''
-_v_rect = _e_ext[_e_i1]
-_v_off = -_e_b[_e_i2][:2] - (_v_rect * 0.5)
-_v_th = np.arctan2(*_e_ev[_e_i3][::-1])
-''', f2.node)
-    relation("B1", f2, "rectangle, offset and angle are read at the same candidate index", env, [("_e_i1", "_e_i2"), ("_e_i2", "_e_i3")],
-             "the rectangle, its offset and its angle are read at different candidate edges: the transform no longer belongs to the reported rectangle", "same-index")
-    pv_ = find("_v_perp = np.fliplr(_e_ev) * [-1.0, 1.0]", f2.node)
-    run.instance("B1", f2.where, f"perpendicular direction is (-e_y, e_x) ({pv_})", pv_ is not None, nontrivial=pv_ is not None)
+    V = Values(ix, f2)
+    R = _Rel(run, "B1", f2, V)
+    rets = [r for r in V.returns() if isinstance(r.value, ast.Tuple) and len(r.value.elts) == 2]
+    if not rets:
+        raise AnalysisError("anchor vanished: `return transform, rectangle` in oriented_bounds_2D")
+    r = rets[-1]
+    tr_alts = _unphi(V, V.value(r.value.elts[0], r))
+    re_alts = _unphi(V, V.value(r.value.elts[1], r))
+    # the rectangle: extents of ONE candidate (possibly with its two sides swapped)
+    rect = None
+    for a in re_alts:
+        e = V.match("_e_EXT[_e_AM]", a)
+        if e is not None and V.match("_e_X[::-1]", a) is None:
+            rect = e
+            rect["R"] = V.dag._ident(a)
+    if rect is None:
+        R.piece("the returned rectangle", "_e_EXT[_e_AM]", re_alts[0])
+    else:
+        swapped = [a for a in re_alts if V.dag._ident(a) != rect["R"]]
+        R.demand("the rectangle is the extents row of one candidate (or that row reversed)",
+                 all(V.match("_e_R[::-1]", a, {"_e_R": rect["R"]}) is not None for a in swapped),
+                 "the alternatives of the returned rectangle are not one candidate's extents and its reverse", "rectangle-alternatives")
+        e = R.piece("the candidate extents", ["numpy.diff(_e_B.reshape((-1, 2, 2)), axis=1).reshape((-1, 2))",
+                                             "numpy.column_stack((_e_x2.max(axis=1) - _e_x1.min(axis=1), _e_y2.max(axis=1) - _e_y1.min(axis=1)))"], rect["_e_EXT"])
+        B = None
+        if e is not None and "_e_B" in e:
+            B = e["_e_B"]
+            e = R.piece("the candidate bounds", "numpy.column_stack((_e_x1.min(axis=1), _e_y1.min(axis=1), _e_x2.max(axis=1), _e_y2.max(axis=1)))", B)
+        if e is not None:
+            R.same("the rectangle bounds take min and max of the same two projections", e, [("_e_x1", "_e_x2"), ("_e_y1", "_e_y2")],
+                   "the lower and upper bounds of the rectangle are taken over different projections, so the rectangle need not contain the points", "bounds-pairs")
+            ex = R.piece("the projection on the edge direction", "numpy.dot(_e_E, _e_H1.T)", e["_e_x1"])
+            ey = ex and R.piece("the projection on the perpendicular", "numpy.dot(_e_PV, _e_H2.T)", e["_e_y1"], ex)
+            if ey:
+                R.same("both projections are taken of the same hull points", ey, [("_e_H1", "_e_H2")], "the two projections are measured on different point sets", "hull-points")
+                pvn = V.match("numpy.fliplr(_e_E2) * [-1.0, 1.0]", ey["_e_PV"]) or V.match("numpy.fliplr(_e_E2) * [1.0, -1.0]", ey["_e_PV"]) \
+                    or V.match("numpy.column_stack((-_e_E2[:, 1], _e_E2[:, 0]))", ey["_e_PV"])
+                if pvn is None:
+                    loose = V.match("numpy.fliplr(_e_E2) * _e_sg", ey["_e_PV"])
+                    if loose is not None:
+                        R.demand("the second direction is the first rotated by a quarter turn", False,
+                                 f"the second projection direction `{V.text(ey['_e_PV'], 2, 80)}` is not perpendicular to the edge direction: the rectangle is not a rectangle", "perpendicular")
+                    else:
+                        R.piece("the perpendicular direction", "numpy.fliplr(_e_E2) * [-1.0, 1.0]", ey["_e_PV"])
+                else:
+                    pvn["_e_E"] = ey["_e_E"]
+                    R.same("the second direction is the first rotated by a quarter turn", pvn, [("_e_E", "_e_E2")],
+                           "the perpendicular is not derived from the edge directions that are projected on", "perpendicular-source")
+                # the transform belongs to the same candidate
+                pm = None
+                for a in tr_alts:
+                    pm = pm or V.match("trimesh.transformations.planar_matrix(_e_OFF, _e_TH)", a) or V.match("trimesh.transformations.planar_matrix(offset=_e_OFF, theta=_e_TH)", a)
+                if pm is None:
+                    R.piece("the returned transform", "trimesh.transformations.planar_matrix(_e_OFF, _e_TH)", tr_alts[0])
+                else:
+                    others = [a for a in tr_alts if V.match("trimesh.transformations.planar_matrix(_e_OFF, _e_TH)", a, pm) is None
+                              and V.match("trimesh.transformations.planar_matrix(offset=_e_OFF, theta=_e_TH)", a, pm) is None]
+                    R.demand("the alternatives of the transform are the planar matrix and the axis swap applied to it",
+                             all(V.match("numpy.dot(_e_F, trimesh.transformations.planar_matrix(_e_OFF, _e_TH))", a, pm) is not None for a in others),
+                             "the returned transform is not (an axis swap of) the planar matrix of the chosen candidate", "transform-alternatives")
+                    off = None
+                    for t_ in ("-_e_B2[_e_i2][_e_sl] - _e_R2 * 0.5", "-(_e_B2[_e_i2][_e_sl] + _e_R2 * 0.5)", "-_e_B2[_e_i2][_e_sl] - _e_R2 / 2", "-_e_B2[_e_i2][_e_sl] - 0.5 * _e_R2"):
+                        off = off or V.match(t_, pm["_e_OFF"])
+                    if off is None:
+                        R.piece("the offset of the planar matrix", "-_e_B2[_e_i2][_e_sl] - _e_R2 * 0.5", pm["_e_OFF"])
+                    else:
+                        off.update({"B": B, "AM": rect["_e_AM"], "R": rect["R"], "lo": ":2"})
+                        R.same("rectangle, offset and angle are read at the same candidate index; the offset is minus the lower corner minus half the rectangle", off,
+                               [("_e_B2", "B"), ("_e_i2", "AM"), ("_e_R2", "R"), ("_e_sl", "lo")],
+                               "the offset is not `-(lower corner of the chosen candidate) - rectangle / 2`: the transform no longer centres the reported rectangle on the points", "same-index")
+                    th = V.match("numpy.arctan2(*_e_E3[_e_i3][::-1])", pm["_e_TH"]) or V.match("numpy.arctan2(_e_E3[_e_i3][1], _e_E3[_e_i3][0])", pm["_e_TH"])
+                    if th is None:
+                        R.piece("the angle of the planar matrix", "numpy.arctan2(*_e_E3[_e_i3][::-1])", pm["_e_TH"])
+                    else:
+                        th.update({"E": ey["_e_E"], "AM": rect["_e_AM"]})
+                        R.same("the angle is that of the chosen candidate's edge direction", th, [("_e_E3", "E"), ("_e_i3", "AM")],
+                               "the rotation angle is read from a different edge than the rectangle", "angle-index")
     # algebra: planar_matrix(offset, theta) applied to p, with (c, s) the unit edge
     pm = ix.func("trimesh.transformations:planar_matrix")
     c, s, px, py, xmin, xmax, ymin, ymax = sp.symbols("c s px py xmin xmax ymin ymax", real=True)
@@ -96,7 +189,6 @@ _v_th = np.arctan2(*_e_ev[_e_i3][::-1])
     try:
         T = arr(it.call(pm, [], {"offset": off, "theta": th}))
     except Unsupported as e:
-        # float(theta) on a symbol etc.: fall back to the decision table
         raise AnalysisError(f"E3 cannot translate planar_matrix: {e}")
     q = T.dot(np.array([px, py, 1], dtype=object))
     ex, ey = c * px + s * py, -s * px + c * py
@@ -107,100 +199,170 @@ _v_th = np.arctan2(*_e_ev[_e_i3][::-1])
 
     # ------------------------------------------------------------------ B2
     f3 = ix.func("trimesh.bounds:oriented_bounds")
-    p3 = Prov(ix, f3)
-    stop3 = ("order",)
-    env = find('''
-_v_tr = transformations.transform_points(_e_v, _e_m1)
-_v_c = _e_t1.min(axis=0) + np.ptp(_e_t2, axis=0) * 0.5
-_v_m2[:3, 3] = -_v_c
-''', f3.node)
-    if env is not None:
-        env["_tr"] = env["_v_tr"]
-    relation("B2", f3, "the box is centred on the min / max of the points under the matrix that is returned", env,
-             [("_e_t1", "_e_t2"), ("_e_t1", "_tr"), ("_e_m1", "_v_m2")],
-             "the translation is not minus the centre of the points transformed by the returned matrix: the box is not centred on them", "centre")
-    env = find('''
-_v_h = np.ptp(_e_p1[:, 2])
-_v_rot, _v_box = oriented_bounds_2D(_e_p2[:, :2])
-_v_ext = np.append(_v_box, _v_h)
-''', f3.node)
-    relation("B2", f3, "height and base rectangle are measured on the same projection", env, [("_e_p1", "_e_p2")],
-             "the height and the base rectangle are measured on different projections of the points", "same-projection")
+    V3 = Values(ix, f3)
+    R = _Rel(run, "B2", f3, V3)
+    rets = [r for r in V3.returns() if isinstance(r.value, ast.Tuple) and len(r.value.elts) == 2]
+    if not rets:
+        raise AnalysisError("anchor vanished: `return to_origin, extents` in oriented_bounds")
+    # the return that comes out of the search (the others delegate to the 2D / coplanar routines)
+    main = max(rets, key=lambda r_: r_.lineno)
+    to_alts = _unphi(V3, V3.value(main.value.elts[0], main))
+    ex_alts = _unphi(V3, V3.value(main.value.elts[1], main))
+    base = None
+    for a in to_alts:
+        base = base or V3.match("STORE(_e_M, _[:3, 3], -_e_C)", a)
+    if base is None:
+        R.piece("the returned matrix", "STORE(_e_M, _[:3, 3], -_e_C)", to_alts[0])
+    else:
+        cen = None
+        for t_ in ("_e_T1.min(axis=0) + numpy.ptp(_e_T2, axis=0) * 0.5", "_e_T1.min(axis=0) + (_e_T2.max(axis=0) - _e_T3.min(axis=0)) * 0.5",
+                   "(_e_T1.min(axis=0) + _e_T2.max(axis=0)) * 0.5", "(_e_T1.min(axis=0) + _e_T2.max(axis=0)) / 2"):
+            cen = cen or V3.match(t_, base["_e_C"])
+        if cen is None:
+            loose = V3.match("_e_T1.mean(axis=0)", base["_e_C"])
+            if loose is not None:
+                R.demand("the box is centred on the middle of the min / max of the transformed points", False,
+                         "the translation centres the box on the MEAN of the points, not on the middle of their min / max: points on the sparse side stick out of the box", "centre")
+            else:
+                R.piece("the box centre", "_e_T1.min(axis=0) + numpy.ptp(_e_T2, axis=0) * 0.5", base["_e_C"])
+        else:
+            cen.setdefault("_e_T3", cen["_e_T1"])
+            tp = V3.match("trimesh.transformations.transform_points(_e_V, _e_M2)", cen["_e_T1"]) or V3.match("trimesh.transformations.transform_points(points=_e_V, matrix=_e_M2)", cen["_e_T1"])
+            env = dict(cen)
+            env.update(tp or {})
+            env["M"] = base["_e_M"]
+            pairs = [("_e_T1", "_e_T2"), ("_e_T1", "_e_T3")] + ([("_e_M2", "M")] if tp else [])
+            R.same("the box is centred on the min / max of the points under the matrix that is returned", env, pairs,
+                   "the translation is not minus the centre of the points transformed by the returned matrix: the box is not centred on them", "centre")
+    plain = None
+    for a in ex_alts:
+        plain = plain or V3.match("numpy.append(trimesh.bounds.oriented_bounds_2D(_e_PA[:, :2])[1], numpy.ptp(_e_PB[:, 2]))", a)
+    if plain is None:
+        R.piece("the returned extents", "numpy.append(trimesh.bounds.oriented_bounds_2D(_e_PA[:, :2])[1], numpy.ptp(_e_PB[:, 2]))", ex_alts[0])
+    else:
+        R.same("height and base rectangle are measured on the same projection", plain, [("_e_PA", "_e_PB")],
+               "the height and the base rectangle are measured on different projections of the points", "same-projection")
+        if base is not None:
+            rot = V3.match("numpy.dot(trimesh.transformations.planar_matrix_to_3D(STORE(trimesh.bounds.oriented_bounds_2D(_e_PC[:, :2])[0], _[:2, 2], 0.0)), _e_M2D)", base["_e_M"])
+            if rot is not None:
+                rot["PA"] = plain["_e_PA"]
+                R.same("the in-plane rotation comes from the same 2D call as the base rectangle", rot, [("_e_PC", "PA")],
+                       "the rotation about the normal and the base rectangle come from different 2D projections", "rotation-source")
     # the re-ordering matrix: evaluate the code's own statements for each of the six orders
     blk = None
     for st in ast.walk(f3.node):
-        if isinstance(st, ast.If) and ast.unparse(st.test) == "ordered":
+        if isinstance(st, ast.If) and ast.unparse(st.test) in ("ordered", "ordered is True", "ordered == True"):
             blk = st
     if blk is None:
         raise AnalysisError("anchor vanished: `if ordered:` in oriented_bounds")
-    n_ok = 0
-    for order in itertools.permutations(range(3)):
-        env = {"np": np, "order": np.array(order), "min_extents": np.array([1.0, 2.0, 3.0])[np.argsort(order)], "to_origin": np.eye(4)}
-        flip = np.eye(4)
-        flip[:3, :3] = -np.eye(3)[list(order)]
-        # the code negates once more when the determinant is not +1: read that from the source
-        cond = [st for st in blk.body if isinstance(st, ast.If) and "det" in ast.unparse(st.test)]
-        if len(cond) != 1:
-            raise AnalysisError("anchor vanished: the determinant correction of the axis re-ordering in oriented_bounds")
-        det = round(float(np.linalg.det(flip[:3, :3])))
-        negate_when_not_one = "not np.isclose(np.linalg.det(flip[:3, :3]), 1.0)" == ast.unparse(cond[0].test) and \
-            ast.unparse(cond[0].body[0]) == "flip[:3, :3] = np.dot(flip[:3, :3], -np.eye(3))"
-        if not negate_when_not_one:
-            raise AnalysisError(f"unrecognised determinant correction `{ast.unparse(cond[0])[:80]}` in oriented_bounds")
-        if det != 1:
-            flip[:3, :3] = flip[:3, :3].dot(-np.eye(3))
-        m3 = flip[:3, :3]
-        good = np.allclose(m3.dot(m3.T), np.eye(3)) and round(float(np.linalg.det(m3))) == 1 and np.allclose(np.abs(m3).dot([1.0, 2.0, 3.0]), np.array([1.0, 2.0, 3.0])[list(order)])
-        n_ok += good
-        run.obligation("B2", f3.where, f"order {order}: re-ordering matrix is orthonormal, det +1 and permutes the extents like `min_extents[order]`", bool(good))
-        if not good:
-            run.violation("B2", f3.where, f"oriented_bounds: for extents order {order} the axis re-ordering matrix is not a det +1 signed permutation matching `min_extents[order]`",
-                          key=key_of("C16-B2", "flip", order))
-    init = [c_ for _, c_ in _canon_defs(p3, f3, "flip[:3, :3]", stop3)]
-    ok = init[:1] == ["-numpy.eye(3)[L_order]"]
-    run.instance("B2", f3.where, f"re-ordering matrix starts as -I[order] ({init[:1]})", ok)
-    if not ok:
-        run.violation("B2", f3.where, f"the axis re-ordering matrix of oriented_bounds is built as {init[:1]}, not -I[order]", key=key_of("C16-B2", "flip-init"))
+    cond = [st for st in blk.body if isinstance(st, ast.If) and "det" in ast.unparse(st.test)]
+    if len(cond) != 1:
+        raise AnalysisError("anchor vanished: the determinant correction of the axis re-ordering in oriented_bounds")
+    ctext = ast.unparse(cond[0].test).replace(" ", "")
+    # which determinants get the extra negation
+    forms = {
+        "notnp.isclose(np.linalg.det(flip[:3,:3]),1.0)": lambda d: d != 1, "np.isclose(np.linalg.det(flip[:3,:3]),-1.0)": lambda d: d == -1,
+        "np.linalg.det(flip[:3,:3])<0": lambda d: d < 0, "np.linalg.det(flip[:3,:3])<0.0": lambda d: d < 0,
+        "np.isclose(np.linalg.det(flip[:3,:3]),1.0)": lambda d: d == 1, "notnp.isclose(np.linalg.det(flip[:3,:3]),-1.0)": lambda d: d != -1,
+        "np.linalg.det(flip[:3,:3])>0": lambda d: d > 0, "np.linalg.det(flip[:3,:3])>0.0": lambda d: d > 0,
+    }
+    negates = ast.unparse(cond[0].body[0]).replace(" ", "") in ("flip[:3,:3]=np.dot(flip[:3,:3],-np.eye(3))", "flip[:3,:3]=-flip[:3,:3]", "flip[:3,:3]*=-1", "flip[:3,:3]*=-1.0")
+    if ctext not in forms or not negates or len(cond[0].body) != 1 or cond[0].orelse:
+        run.instance("B2", f3.where, f"determinant correction `{ast.unparse(cond[0])[:70]}` not in a recognised form - NOT decided", True, nontrivial=False)
+        run.assume("oriented_bounds: the determinant correction of the axis re-ordering is not in a recognised form")
+    else:
+        for order in itertools.permutations(range(3)):
+            flip = np.eye(4)
+            flip[:3, :3] = -np.eye(3)[list(order)]
+            det = round(float(np.linalg.det(flip[:3, :3])))
+            if forms[ctext](det):
+                flip[:3, :3] = -flip[:3, :3]
+            m3 = flip[:3, :3]
+            good = np.allclose(m3.dot(m3.T), np.eye(3)) and round(float(np.linalg.det(m3))) == 1 and np.allclose(np.abs(m3).dot([1.0, 2.0, 3.0]), np.array([1.0, 2.0, 3.0])[list(order)])
+            run.obligation("B2", f3.where, f"order {order}: re-ordering matrix is orthonormal, det +1 and permutes the extents like `min_extents[order]`", bool(good))
+            if not good:
+                run.violation("B2", f3.where, f"oriented_bounds: for extents order {order} the axis re-ordering matrix is not a det +1 signed permutation matching `min_extents[order]`",
+                              key=key_of("C16-B2", "flip", order))
+    fl = None
+    for a in to_alts:
+        fl = fl or V3.match("numpy.dot(_e_FLIP, _e_TO)", a)
+    if fl is not None and plain is not None:
+        inits = [V3.match("STORE(numpy.eye(4), _[:3, :3], -numpy.eye(3)[_e_ORD])", x) or V3.match("STORE(STORE(numpy.eye(4), _[:3, :3], -numpy.eye(3)[_e_ORD]), _[:3, :3], _e_neg)", x)
+                 for x in _unphi(V3, fl["_e_FLIP"])]
+        okf = all(i is not None for i in inits) and len({i["_e_ORD"] for i in inits if i}) == 1
+        ordered_ext = [a for a in ex_alts if V3.match("_e_X[_e_ORD2]", a) is not None and V3.match("numpy.append(_e_a, _e_b)", a) is None]
+        if okf and ordered_ext:
+            oe = V3.match("_e_X[_e_ORD2]", ordered_ext[0])
+            oe["ORD"] = inits[0]["_e_ORD"]
+            R.same("the re-ordering matrix starts as -I[order] with the order that re-orders the extents", oe, [("_e_ORD2", "ORD")],
+                   "the axis re-ordering matrix and the re-ordered extents use different orders", "flip-init")
+        else:
+            run.instance("B2", f3.where, f"re-ordering matrix starts as -I[order]: {okf}", okf)
+            if not okf:
+                run.violation("B2", f3.where, "the axis re-ordering matrix of oriented_bounds is not built as -I[order]", key=key_of("C16-B2", "flip-init"))
 
     # ------------------------------------------------------------------ B3
     fs = ix.func("trimesh.nsphere:minimum_nsphere")
-    env = find('''
-_v_fr = (((_e_p - _e_c1) ** 2).sum(axis=1).max() ** 0.5) * _e_s1
-_v_fc = (_e_c2 * _e_s2) + _e_o
-''', fs.node)
-    if env is not None:
-        env["_fc"] = env["_v_fc"]
-    relation("B3", fs, "fit candidate: the radius is the largest distance to the centre that is returned, both un-scaled alike", env,
-             [("_e_c1", "_e_c2"), ("_e_c1", "_fc"), ("_e_s1", "_e_s2")],
-             "the fit radius is not measured against the returned fit centre (or the two are un-scaled differently): the sphere need not contain the points", "fit")
-    env = find('''
-_v_rv = np.sqrt(_e_r1[_e_i1]) * _e_s1
-_v_cv = (_e_verts[_e_i2] * _e_s2) + _e_o
-''', fs.node)
-    relation("B3", fs, "Voronoi candidate: centre and radius are read at the same index and un-scaled alike", env, [("_e_i1", "_e_i2"), ("_e_s1", "_e_s2")],
-             "the Voronoi centre and its radius are read at different indices (or un-scaled differently)", "voronoi")
-    r2a = find("_v_r2 = spatial.distance.cdist(_e_c.vertices, _e_p, metric='sqeuclidean').max(axis=1)", fs.node)
-    r2b = find("_v_r2 = np.array([((_e_p - v) ** 2).sum(axis=1).max() for v in _e_c.vertices])", fs.node)
-    ok = r2a is not None and r2b is not None and r2a["_e_p"] == r2b["_e_p"] and r2a["_e_c"] == r2b["_e_c"]
-    if r2a is None or r2b is None:
-        run.instance("B3", fs.where, "candidate radii: statements not in a recognised form - NOT decided", True, nontrivial=False)
-        run.assume("minimum_nsphere: the per-candidate radius statements are not in a recognised form")
-    else:
-        run.instance("B3", fs.where, f"per-candidate radius^2 = max over `{r2a['_e_p']}` of the squared distance to each vertex of `{r2a['_e_c']}` (both code paths)", ok)
-        if not ok:
-            run.violation("B3", fs.where, "the fast and the fallback computation of the candidate radii measure different things", key=key_of("C16-B3", "radii-paths"))
-    ps = Prov(ix, fs)
-    rets = [(r, [ast.unparse(e) for e in r.value.elts]) for r in ast.walk(fs.node) if isinstance(r, ast.Return) and isinstance(r.value, ast.Tuple) and len(r.value.elts) == 2]
-    fit = find("_v_fr = (((_e_p - _e_c1) ** 2).sum(axis=1).max() ** 0.5) * _e_s1", fs.node)
-    vor = find("_v_rv = np.sqrt(_e_r1[_e_i1]) * _e_s1\n_v_cv = (_e_verts[_e_i2] * _e_s2) + _e_o", fs.node)
-    fcn = find("_v_fc = (_e_c2 * _e_s2) + _e_o", fs.node)
-    if fit and vor and fcn and rets:
-        pairs = {(fcn["_v_fc"], fit["_v_fr"]), (vor["_v_cv"], vor["_v_rv"])}
-        bad = [e for _, e in rets if tuple(e) not in pairs]
-        ok = not bad
-        run.instance("B3", fs.where, f"returns are matching (centre, radius) pairs: {[e for _, e in rets]}", ok)
-        if not ok:
-            run.violation("B3", fs.where, f"minimum_nsphere returns {bad[0]}: a centre paired with the other candidate's radius does not bound the points", key=key_of("C16-B3", "pairs"))
+    Vs = Values(ix, fs)
+    R = _Rel(run, "B3", fs, Vs)
+    rets = [r for r in Vs.returns() if isinstance(r.value, ast.Tuple) and len(r.value.elts) == 2]
+    if not rets:
+        raise AnalysisError("anchor vanished: `return centre, radius` in minimum_nsphere")
+    seen = set()
+    for r in rets:
+        cn, rn = Vs.value(r.value.elts[0], r), Vs.value(r.value.elts[1], r)
+        sig = (Vs.dag._ident(cn), Vs.dag._ident(rn))
+        if sig in seen:
+            continue
+        seen.add(sig)
+        c_ = Vs.match("_e_C * _e_S1 + _e_O", cn)
+        if c_ is None:
+            bare = Vs.match("_e_C + _e_O", cn)
+            scaled_r = Vs.match("_e_X * _e_S2", rn)
+            if bare is not None and scaled_r is not None and Vs.dag.contains(bare["_e_O"], "P_obj") \
+                    and scaled_r["_e_S2"] not in [Vs.dag._ident(x) for x in Vs.dag._flat_c(ast.Name(id=bare["_e_C"], ctx=ast.Load()), ast.Mult)]:
+                R.demand("centre and radius are mapped back to world units with the same scale", False,
+                         f"the returned radius is multiplied by `{Vs.text(scaled_r['_e_S2'], 2, 60)}` but the centre `{Vs.text(cn, 2, 80)}` is not: centre and radius are in different units", "scale")
+            else:
+                R.piece("a returned centre", "_e_C * _e_S1 + _e_O", cn)
+            continue
+        # radius: sqrt(max squared distance to that centre) in unit coordinates, times the same scale
+        rr = None
+        for t_ in ("((_e_P - _e_C2) ** 2).sum(axis=1).max() ** 0.5 * _e_S2", "numpy.sqrt(((_e_P - _e_C2) ** 2).sum(axis=1).max()) * _e_S2"):
+            rr = rr or Vs.match(t_, rn)
+        if rr is not None:
+            env = dict(c_)
+            env.update(rr)
+            R.same("fit candidate: the radius is the largest distance to the centre that is returned, both un-scaled alike", env, [("_e_C", "_e_C2"), ("_e_S1", "_e_S2")],
+                   "the fit radius is not measured against the returned fit centre (or the two are un-scaled differently): the sphere need not contain the points", "fit")
+            continue
+        vv = Vs.match("numpy.sqrt(_e_R2[_e_I2]) * _e_S2", rn) or Vs.match("_e_R2[_e_I2] ** 0.5 * _e_S2", rn)
+        cv = Vs.match("_e_VERTS[_e_I1]", c_["_e_C"])
+        if vv is None or cv is None:
+            R.piece("a returned radius", "numpy.sqrt(_e_R2[_e_I2]) * _e_S2", rn)
+            continue
+        env = dict(c_)
+        env.update(vv)
+        env.update(cv)
+        R.same("Voronoi candidate: centre and radius are read at the same index and un-scaled alike", env, [("_e_I1", "_e_I2"), ("_e_S1", "_e_S2")],
+               "the Voronoi centre and its radius are read at different indices (or un-scaled differently): a centre paired with another candidate's radius does not bound the points", "voronoi")
+        # the per-candidate radii: max over the points of the squared distance to each candidate (both code paths)
+        for alt in _unphi(Vs, vv["_e_R2"]):
+            a1 = Vs.match("scipy.spatial.distance.cdist(_e_CV, _e_PTS, metric='sqeuclidean').max(axis=1)", alt)
+            a2 = Vs.match("[((_e_PTS - v) ** 2).sum(axis=1).max() for v in _e_CV]", alt)
+            a = a1 or a2
+            if a is None:
+                loose = Vs.match("scipy.spatial.distance.cdist(_e_CV, _e_PTS, metric='sqeuclidean')._e_red(axis=1)", alt)
+                red = Vs.dag.node(alt)
+                if isinstance(red, ast.Call) and isinstance(Vs.dag.node(red.func), ast.Attribute) and Vs.dag.node(red.func).attr in ("mean", "min", "median", "sum"):
+                    R.demand("candidate radius^2 is the MAX squared distance over the points", False,
+                             f"the radius of a candidate centre is the `{Vs.dag.node(red.func).attr}` of the distances to the points, not their maximum: the sphere does not contain them", "radii-max")
+                else:
+                    R.piece("the candidate radii", "scipy.spatial.distance.cdist(_e_CV, _e_PTS, metric='sqeuclidean').max(axis=1)", alt)
+                continue
+            a["VERTS"] = cv["_e_VERTS"]
+            R.same("candidate radius^2 = max over the points of the squared distance to the candidates that the centre is taken from", a, [("_e_CV", "VERTS")],
+                   "the candidate radii are measured from other centres than the one that is returned", "radii-centres")
 
     # ------------------------------------------------------------------ B4
     fb = ix.func("trimesh.parent:Geometry3D.bounding_box")
@@ -230,12 +392,34 @@ _v_cv = (_e_verts[_e_i2] * _e_s2) + _e_o
     if not ok:
         run.violation("B4", fo.where, f"bounding_box_oriented does not place a box of the reported extents with the inverse of the to-origin transform ({rets})", key=key_of("C16-B4", "obb"))
     fh = ix.func("trimesh.convex:convex_hull")
-    ph = Prov(ix, fh)
-    vs = [c_ for _, c_ in _canon_defs(ph, fh, "vertices", stop=("hull", "vid"))]
-    ok = vs == ["L_hull.points[L_vid].copy()"]
-    run.instance("B4", fh.where, f"hull vertices := {vs} (rows of the points handed to qhull)", ok)
-    if not ok:
-        run.violation("B4", fh.where, f"convex_hull builds its vertices as {vs}: not a selection of rows of the input points", key=key_of("C16-B4", "hull-vertices"))
+    Vh = Values(ix, fh)
+    R = _Rel(run, "B4", fh, Vh)
+    ctor = [c_ for c_ in ast.walk(fh.node) if isinstance(c_, ast.Call) and Vh.pv.callee(c_.func) == "trimesh.base.Trimesh"]
+    if not ctor:
+        raise AnalysisError("anchor vanished: the Trimesh(...) construction of convex_hull")
+    for c_ in ctor:
+        st_ = Vh.pv.stmt_of(c_)
+        kw = {k.arg: k.value for k in c_.keywords if k.arg}
+        for i_, a_ in enumerate(c_.args[:2]):
+            kw.setdefault(("vertices", "faces")[i_], a_)
+        if "vertices" not in kw or "faces" not in kw:
+            continue
+        vn, fn_ = Vh.value(kw["vertices"], st_), Vh.value(kw["faces"], st_)
+        e = R.piece("the hull's vertices", ["_e_H.points[_e_VID].copy()", "_e_H.points[_e_VID]"], vn)
+        if e is None:
+            continue
+        R.demand("hull vertices are rows of the points handed to qhull", Vh.dag.contains(e["_e_H"], "P_points") or Vh.dag.contains(e["_e_H"], "P_obj"),
+                 "the vertices of the hull are not rows of the input points", "hull-vertices")
+        hits = Vh.dag.find("STORE(numpy.zeros(len(_e_H2.points), dtype=numpy.int64), _[_e_VID2], numpy.arange(len(_e_VID3)))[_e_H3.simplices]", fn_)
+        if not hits:
+            run.instance("B4", fh.where, "re-indexing of the hull faces: not in a recognised form - NOT decided", True, nontrivial=False)
+            run.assume("convex_hull: the re-indexing of qhull's simplices is not in a recognised form")
+        else:
+            env = dict(hits[0][0])
+            env.update({"H": e["_e_H"], "VID": e["_e_VID"]})
+            R.same("faces are qhull's simplices re-indexed by the position of each kept vertex in the vertex selection", env,
+                   [("_e_H2", "H"), ("_e_H3", "H"), ("_e_VID2", "VID"), ("_e_VID3", "VID")],
+                   "the hull faces are re-indexed with a different vertex selection than the one that builds the vertex array: faces point at the wrong vertices", "hull-reindex")
     run.assume("the direction / centre searches (qhull, Voronoi, least squares, optimiser), convexity and watertightness of qhull output, minimality and bounding_cylinder are not decided")
     return {
         "explanation": "Canonical-form structural rules plus one polynomial identity and one finite enumeration: whatever candidate the numerical search picks, the reported "
